@@ -33,6 +33,9 @@ var (
 type RetSink struct {
 	Ret  *ssa.Return
 	Pred *ssa.BasicBlock // when the outcome is selected by a phi edge: the predecessor; else nil
+	// Chain: for nested phis (a && b || c) the sequence of blocks the path must traverse, farthest first,
+	// ending with Pred; nil when Pred alone (or nothing) selects the value.
+	Chain []*ssa.BasicBlock
 	Lit  *Lit            // extra condition under which this return has the outcome (value not constant)
 	Desc string
 }
@@ -174,14 +177,28 @@ func (w *World) ReturnSinks(fn *ssa.Function, spec RetSpec) []RetSink {
 		}
 		v := resolveSpilled(ret, ret.Results[idx])
 		if phi, ok := v.(*ssa.Phi); ok && phi.Block() == b {
-			for i, e := range phi.Edges {
-				yes, no, lit := w.classifyRet(e, spec.Want, b.Preds[i])
-				if no {
-					continue
+			var expand func(phi *ssa.Phi, chain []*ssa.BasicBlock, depth int)
+			expand = func(phi *ssa.Phi, chain []*ssa.BasicBlock, depth int) {
+				for i, e := range phi.Edges {
+					pred := phi.Block().Preds[i]
+					nchain := append([]*ssa.BasicBlock{pred}, chain...)
+					if inner, ok := e.(*ssa.Phi); ok && inner.Block() == pred && depth < 5 {
+						expand(inner, nchain, depth+1)
+						continue
+					}
+					yes, no, lit := w.classifyRet(e, spec.Want, pred)
+					if no {
+						continue
+					}
+					_ = yes
+					rs := RetSink{Ret: ret, Pred: nchain[len(nchain)-1], Lit: lit, Desc: "return(phi edge " + w.RenderD(e, 4) + ")"}
+					if len(nchain) > 1 {
+						rs.Chain = nchain
+					}
+					out = append(out, rs)
 				}
-				_ = yes
-				out = append(out, RetSink{Ret: ret, Pred: b.Preds[i], Lit: lit, Desc: "return(phi edge " + w.RenderD(e, 4) + ")"})
 			}
+			expand(phi, nil, 0)
 			continue
 		}
 		yes, no, lit := w.classifyRet(v, spec.Want, b)
@@ -204,6 +221,28 @@ func (w *World) RetGuarded(s RetSink, g Gate) bool {
 		}
 	}
 	c := w.GateCut(s.Ret.Parent(), g)
+	if len(s.Chain) > 1 {
+		// every hop of the chain must be traversable
+		blocks := append(append([]*ssa.BasicBlock{}, s.Chain...), s.Ret.Block())
+		if !EdgeReachable(blocks[0], blocks[1], c) {
+			return true
+		}
+		for i := 1; i+1 < len(blocks); i++ {
+			if blockHasCutInstr(blocks[i], c, nil) {
+				return true
+			}
+			ok := false
+			for j, su := range blocks[i].Succs {
+				if su == blocks[i+1] && !c.Edges[EdgeKey{blocks[i], j}] {
+					ok = true
+				}
+			}
+			if !ok {
+				return true
+			}
+		}
+		return false
+	}
 	if s.Pred != nil {
 		return !EdgeReachable(s.Pred, s.Ret.Block(), c)
 	}
